@@ -46,7 +46,10 @@ RULE = ("random undirected multigraphs, <= 8 nodes / <= 14 edges (thorough: ever
         "tree + extra edges, sparse random (often disconnected), several components, complete graphs; duplicate and "
         "reversed-duplicate edges, self loops, few distinct / equal / negative / dyadic weights, int-float mixes; "
         "kruskal with allow_forest False, True and not passed, prim from start=None and from start nodes (thorough: every node) "
-        "with int / shifted / negative / str / tuple / mixed node labels and shuffled adjacency lists; non-trivial = "
+        "with int / shifted / negative / str / tuple / mixed node labels and shuffled adjacency lists; every 7th case "
+        "is a 'tournament' graph (9-18 nodes: weight levels make Kruskal merge singletons -> pairs -> quads -> octets "
+        "through roots or arbitrary members, intra-component edges between the levels, a late-joining or isolated node) "
+        "so that union-find trees reach depth 3-4; non-trivial = "
         "the kruskal mirror rejected >= 1 edge (iterations > accepted edges); distinct by (n, edges, scale)")
 
 LABEL_KINDS = ["int", "shift", "neg", "str", "tuple", "mixed"]
@@ -153,10 +156,87 @@ def gen_graph(rng, big: bool):
     return {"n": n, "edges": edges, "scale": scale, "wkind": wkind, "adj": adj}
 
 
-def gen_case(rng, big: bool, all_starts: bool):
-    g = gen_graph(rng, big)
+def gen_tournament(rng, big: bool):
+    """Deep union-find trees.  Kruskal merges singletons -> pairs -> quads -> octets (-> 16) level by level (one weight
+    level per round, every merge of a round joins two components of the round before), so union by rank builds trees of
+    depth 3 (4).  Merge endpoints are arbitrary members or -- half of the time -- the current roots (no path
+    compression on the way); intra-component edges of intermediate weight sit between the levels and after the last
+    one, and a late-joining or isolated node keeps the loop running past the last merge."""
+    leaves = rng.choice([8, 8, 9, 11, 12, 16] if big else [8, 8, 8, 9, 10, 12, 16])
+    extra = rng.choice([1, 1, 2]) if leaves < 16 else 1
+    n = leaves + extra
+    ids = list(range(n))
+    rng.shuffle(ids)
+    scale = rng.choice([1, 1, 2, 4])
+    step = 8 * scale  # distance between two weight levels (numerators)
+    base = rng.choice([-3 * step, 0, 1, 5])
+    parent = {v: v for v in ids[:leaves]}  # generator-side bookkeeping of the roots (union by rank, first root wins ties)
+    rank = {v: 0 for v in ids[:leaves]}
+    comps = [[v] for v in ids[:leaves]]
+    edges = []
+    level = 0
+
+    def root(v):
+        while parent[v] != v:
+            v = parent[v]
+        return v
+
+    def pick(comp):
+        return root(comp[0]) if rng.random() < 0.5 else rng.choice(comp)
+
+    def intra(cs, lo, hi, count):
+        for _ in range(count):
+            c = rng.choice(cs)
+            if len(c) >= 2:
+                a, b = rng.choice(c), rng.choice(c)
+                edges.append([a, b, rng.randint(lo, hi)])
+
+    while len(comps) > 1:
+        level += 1
+        w = base + level * step
+        rng.shuffle(comps)
+        nxt = []
+        for i in range(0, len(comps) - 1, 2):
+            a, b = comps[i], comps[i + 1]
+            if rng.random() < 0.5:
+                a, b = b, a
+            u, v = pick(a), pick(b)
+            edges.append([u, v, w])
+            ru, rv = root(u), root(v)
+            if rank[ru] < rank[rv]:
+                ru, rv = rv, ru
+            parent[rv] = ru
+            if rank[ru] == rank[rv]:
+                rank[ru] += 1
+            nxt.append(a + b)
+        if len(comps) % 2:
+            nxt.append(comps[-1])
+        comps = nxt
+        # intra-component edges examined after this level and before the next one
+        intra(comps, w + 1, w + step - 1, rng.choice([0, 0, 1, 2, 3]))
+    top = base + level * step
+    intra(comps, top + 1, top + step - 1, rng.choice([1, 2, 3, 5]))
+    # the remaining node(s): joined by the heaviest edge(s) of all, or left isolated
+    for x in ids[leaves:]:
+        if rng.random() < 0.6:
+            edges.append([x, rng.choice(ids[:leaves]), top + step + rng.randint(0, 3)] if rng.random() < 0.5
+                         else [rng.choice(ids[:leaves]), x, top + step + rng.randint(0, 3)])
+    rng.shuffle(edges)
+    adj = [[] for _ in range(n)]
+    for u, v, k in edges:
+        adj[u].append([v, k])
+        if u != v or rng.random() < 0.5:
+            adj[v].append([u, k])
+    for lst in adj:
+        rng.shuffle(lst)
+    return {"n": n, "edges": edges, "scale": scale, "wkind": "float" if scale != 1 else rng.choice(["float", "int", "mixed"]),
+            "adj": adj, "family": "tournament"}
+
+
+def gen_case(rng, big: bool, all_starts: bool, tournament: bool = False):
+    g = gen_tournament(rng, big) if tournament else gen_graph(rng, big)
     n = g["n"]
-    if all_starts:
+    if all_starts and not tournament:
         starts = [None] + list(range(n))
     else:
         starts = [None] + sorted(rng.sample(range(n), min(n, 2)))
@@ -428,6 +508,7 @@ def judge(ctx, case, out, replies):
     ctx.count("connected" if k_reply[5] else "disconnected")
     ctx.count(f"n={case['n']}")
     ctx.count(f"labels:{case['labels']}")
+    ctx.count(f"family:{case.get('family', 'random')}")
     es = case["edges"]
     if any(u == v for u, v, _ in es):
         ctx.count("has_self_loop")
@@ -442,19 +523,158 @@ def judge(ctx, case, out, replies):
                                     "impl": out[1], "model_kruskal": k_reply[:4]})
 
 
-def run_cases(ctx, cases):
-    outs = run_pool(impl, cases, timeout=30.0)
+class _Collector:
+    """ctx look-alike handed to `judge`: R_prop failures are collected (so that they can be shrunk before they are
+    reported); counters, cases and R_trace divergences go straight to the real context (or nowhere when `ctx` is None,
+    which is how shrink candidates are evaluated)."""
+
+    def __init__(self, ctx):
+        self.ctx = ctx
+        self.fails = []
+
+    def fail(self, function, klass, what, rep):
+        self.fails.append((function, klass, what, rep))
+
+    def count(self, key, n=1):
+        if self.ctx is not None:
+            self.ctx.count(key, n)
+
+    def case(self, *a, **kw):
+        if self.ctx is not None:
+            self.ctx.case(*a, **kw)
+
+    def tdiv(self, *a, **kw):
+        if self.ctx is not None:
+            self.ctx.tdiv(*a, **kw)
+
+
+def evaluate(cases, ctx=None, procs=None):
+    """Run implementation and model on `cases`; returns per case the list of R_prop failures."""
+    outs = run_pool(impl, cases, timeout=30.0, procs=procs)
     reqs, spans = [], []
     for c, o in zip(cases, outs):
         rs = requests_for(c, o)
         spans.append((len(reqs), len(reqs) + len(rs)))
         reqs += rs
-    replies = Driver("Mst").run(reqs, chunks=8)
+    replies = Driver("Mst").run(reqs, chunks=8 if len(reqs) > 400 else 1)
     for rp in replies:
         if rp and rp[0] == "error":
             raise core.Infra(f"model rejected request: {rp}")
+    res = []
     for c, o, (a, b) in zip(cases, outs, spans):
-        judge(ctx, c, o, replies[a:b])
+        col = _Collector(ctx)
+        judge(col, c, o, replies[a:b])
+        res.append(col.fails)
+    return res
+
+
+# ---------------------------------------------------------------------------
+# shrinking: drop nodes / edges / start nodes while the same (function, class) still fails
+# ---------------------------------------------------------------------------
+
+def _drop_adj(adj, u, v, k):
+    if [v, k] in adj[u]:
+        adj[u].remove([v, k])
+
+
+def drop_edge(case, idx):
+    c = {**case, "edges": [list(e) for e in case["edges"]], "adj": [[list(p) for p in lst] for lst in case["adj"]]}
+    u, v, k = c["edges"].pop(idx)
+    if u != v:
+        _drop_adj(c["adj"], u, v, k)
+        _drop_adj(c["adj"], v, u, k)
+    else:  # a self loop is listed once or twice: keep between `left` and `2 * left` entries
+        left = sum(1 for e in c["edges"] if e == [u, u, k])
+        _drop_adj(c["adj"], u, u, k)
+        while c["adj"][u].count([u, k]) > 2 * left:
+            _drop_adj(c["adj"], u, u, k)
+    return c
+
+
+def drop_node(case, x):
+    if case["n"] <= 1:
+        return None
+    ren = lambda a: a - 1 if a > x else a  # noqa: E731
+    edges = [[ren(u), ren(v), k] for u, v, k in case["edges"] if u != x and v != x]
+    adj = [[[ren(v), k] for v, k in lst if v != x] for i, lst in enumerate(case["adj"]) if i != x]
+    starts = []
+    for st in case["starts"]:
+        if st is None:
+            starts.append(None)
+        elif st != x and ren(st) not in starts:
+            starts.append(ren(st))
+    return {**case, "n": case["n"] - 1, "edges": edges, "adj": adj, "starts": starts or [None]}
+
+
+def candidates(case):
+    for x in range(case["n"] - 1, -1, -1):
+        c = drop_node(case, x)
+        if c is not None:
+            yield f"drop node {x}", c
+    for i in range(len(case["edges"]) - 1, -1, -1):
+        yield f"drop edge {case['edges'][i]}", drop_edge(case, i)
+    if len(case["starts"]) > 1:
+        for st in case["starts"]:
+            yield f"only start {st}", {**case, "starts": [st]}
+    if case.get("labels") != "int":
+        yield "int labels", {**case, "labels": "int"}
+
+
+def shrink(case, key, deadline):
+    """Greedy structural shrinking: all single-step reductions of the current case are evaluated in one batch, the
+    first one on which the same (function, class) still fails is kept.  A candidate on which the harness itself
+    objects (generator invariants) is skipped."""
+    import time
+    history = []
+    while time.time() < deadline:
+        cands = list(candidates(case))
+        if not cands:
+            break
+        try:
+            res = evaluate([c for _, c in cands], procs=2)
+        except core.Infra:
+            res = []
+            for _, c in cands:
+                try:
+                    res.append(evaluate([c], procs=1)[0])
+                except core.Infra:
+                    res.append([])
+        for (how, c), fails in zip(cands, res):
+            hit = [f for f in fails if (f[0], f[1]) == key]
+            if hit:
+                case, last = c, hit[0]
+                history.append(how)
+                break
+        else:
+            break
+    return case, history
+
+
+def run_cases(ctx, cases, do_shrink=True):
+    import time
+    results = evaluate(cases, ctx)
+    shrunk = 0
+    for case, fails in zip(cases, results):
+        if not fails:
+            continue
+        report, seen = [], set()
+        unknown = [f for f in fails if ctx.known_match(f[0], f[1]) is None]
+        if do_shrink and unknown and shrunk < 3 and len(ctx.violations) < 5:
+            # shrink on the first failing clause, then report every clause that fails on the small case
+            shrunk += 1
+            key = (unknown[0][0], unknown[0][1])
+            small, history = shrink(case, key, time.time() + 12.0)
+            if history:
+                for fn, klass, what, rep in evaluate([small], procs=1)[0]:
+                    if (fn, klass) not in seen:
+                        seen.add((fn, klass))
+                        report.append((fn, klass, what, dict(rep, original_case=case, shrink_history=history)))
+        for fn, klass, what, rep in fails:  # clauses that fail on the original case only
+            if (fn, klass) not in seen:
+                seen.add((fn, klass))
+                report.append((fn, klass, what, rep))
+        for fn, klass, what, rep in report:
+            ctx.fail(fn, klass, what, rep)
 
 
 def run(ctx, budget):
@@ -462,7 +682,9 @@ def run(ctx, budget):
     cases = list(edge_cases()) + [c["case"] for c in core.load_corpus("C13")]
     n = 5000 * budget
     thorough = ctx.tier == "thorough"
-    cases += [gen_case(ctx.rng, big=(thorough and i % 3 == 0), all_starts=(thorough or i % 4 == 0)) for i in range(n)]
+    # every 7th case (about 15 %) is of the structured deep-union-find family
+    cases += [gen_case(ctx.rng, big=(thorough and i % 3 == 0), all_starts=(thorough or i % 4 == 0),
+                       tournament=(i % 7 == 3)) for i in range(n)]
     run_cases(ctx, cases)
     h = ctx.cov["histogram"]
     ctx.cov["cert_checked_impl"] = h.get("cert_checked_impl", 0)
@@ -477,4 +699,4 @@ def run(ctx, budget):
 
 def replay(ctx, body):
     ctx.cov["rule"] = RULE
-    run_cases(ctx, [body["case"]])
+    run_cases(ctx, [body["case"]], do_shrink=False)
